@@ -195,7 +195,7 @@ with `replaceRows` for **every** batch) is *false* in general — finding F-C02-
 `C02_slices_replace_every_batch` below. -/
 theorem C02_slices_replace_partial {P : Pipeline X S Rv} (hWF : P.WF) {bs : List Batch} {res : Result Rv}
     (hrun : aggResult P bs = .ok res) {a : Agg X S Rv} (ha : a ∈ P.aggs) (hns : a.noSlice = false)
-    {Eqv : S → S → Prop} (hL : Lawful a.m Eqv) {r : Int} {rr : X → X} (hdec : RowWiseRepl a.dec r rr)
+    {Eqv : S → S → Prop} (hL : Lawful a.m Eqv) {r : Scalar} {rr : X → X} (hdec : RowWiseRepl a.dec r rr)
     {sl : Slicer} (hsl : sl ∈ P.slicers) {f : List Val → Except ErrKind (List (List Int))}
     (hfn : sl.fn = .rows f) (hrep : sl.replace = some r) (v : List Int) :
     ∃ rowss, mapE a.rowsOf bs = .ok rowss ∧
@@ -237,7 +237,7 @@ theorem C02_slices_replace_partial {P : Pipeline X S Rv} (hWF : P.WF) {bs : List
 replaced. -/
 theorem C02_slices_replace_every_batch {P : Pipeline X S Rv} (hWF : P.WF) {bs : List Batch} {res : Result Rv}
     (hrun : aggResult P bs = .ok res) {a : Agg X S Rv} (ha : a ∈ P.aggs) (hns : a.noSlice = false)
-    {Eqv : S → S → Prop} (hL : Lawful a.m Eqv) {r : Int} {rr : X → X} (hdec : RowWiseRepl a.dec r rr)
+    {Eqv : S → S → Prop} (hL : Lawful a.m Eqv) {r : Scalar} {rr : X → X} (hdec : RowWiseRepl a.dec r rr)
     {sl : Slicer} (hsl : sl ∈ P.slicers) {f : List Val → Except ErrKind (List (List Int))}
     (hfn : sl.fn = .rows f) (hrep : sl.replace = some r) (v : List Int)
     (hne : bs ≠ []) (hall : ∀ b ∈ bs, occursIn f v (sl.featRows b) = true) :
@@ -366,7 +366,8 @@ theorem C02_decCols_rowWise : RowWise decCols := decCols_rowWise
 
 /-- … and in replace mode (an unselected row has every scalar replaced) -/
 theorem C02_decCols_rowWiseRepl (r : Int) :
-    RowWiseRepl decCols r (fun row : List Val => row.map (Val.fill r)) := decCols_rowWiseRepl r
+    RowWiseRepl decCols r (fun row : List Val => row.map (Val.fill r)) :=
+  decCols_rowWiseRepl r ⟨by simp [Scalar.dtype], by simp [Scalar.dtype]⟩
 
 /-- the dict-field decoder (a `dict` / `SELF` input whose ndarray leaves are masked by broadcasting,
 tree.py:181-189) is row-wise as well -/
